@@ -13,3 +13,4 @@ pub mod dns_stagger;
 pub mod dns_wire;
 pub mod dnssrv;
 pub mod sched;
+pub mod e2e;
